@@ -134,6 +134,13 @@ impl TypedProgram {
                     if let Literal::NumUnsigned(size, UnsignedNumType::Usize) = literal {
                         const_sizes.insert(identifier, *size as usize);
                     }
+                } else {
+                    // Report wrongly typed constants together with the missing ones (and before
+                    // any const expression is resolved, which assumes correctly typed constants).
+                    errs.push(CompilerError::InvalidLiteralType(
+                        literal.clone(),
+                        ty.clone(),
+                    ));
                 }
             }
         }
